@@ -402,6 +402,13 @@ func (fsm *storeFSM) applyCopyShardOwnerCommand(cmd *internal.Command) interface
 
 	// Copy data and update.
 	other := fsm.data.Clone()
+
+	// The destination must still be a data node when the command is applied:
+	// it may have been removed since the request was validated.
+	if other.DataNode(v.GetNodeID()) == nil {
+		return ErrNodeNotFound
+	}
+
 	other.CopyShardOwner(v.GetID(), v.GetNodeID())
 	fsm.data = other
 
